@@ -605,7 +605,11 @@ func scanDatumInspection(prog *Program, fns []*ssa.Function, cmp map[*ssa.Functi
 				case *ssa.TypeAssert:
 					if root, _ := rootOf(x.X); root != nil {
 						if p, ok := root.(*ssa.Parameter); ok && isEmptyIface(p.Type()) && isEmptyIface(x.X.Type()) {
-							out = append(out, fmt.Sprintf("%s: type assertion on interface{} parameter %s", fn.Name(), p.Name()))
+							// asserting a scalar-like type (json.Number, string, …) looks at no field; containers and pointers do
+							switch x.AssertedType.Underlying().(type) {
+							case *types.Map, *types.Struct, *types.Slice, *types.Array, *types.Pointer, *types.Interface:
+								out = append(out, fmt.Sprintf("%s: type assertion of interface{} parameter %s to %s", fn.Name(), p.Name(), x.AssertedType))
+							}
 						}
 					}
 				case *ssa.Call:
